@@ -108,6 +108,7 @@ struct Auto<'a> {
     edits: Vec<Edit>,
     errors: Vec<String>,
     keep_derives_off: Vec<String>,
+    method_rewrites: Vec<(String, String, bool)>,
 }
 
 impl<'a> Auto<'a> {
@@ -250,12 +251,31 @@ impl<'a, 'ast> Visit<'ast> for Auto<'a> {
             let r = self.src.range(&m.method);
             self.push(r, "vx_to_le_bytes", "R5-le");
         }
+        for (name, f, is_mut) in self.method_rewrites.clone() {
+            if m.method == name.as_str() {
+                let rr = self.src.range(&*m.receiver);
+                let pre = if is_mut { format!("{}(&mut ", f) } else { format!("{}(", f) };
+                self.edits.push(Edit { start: rr.0, end: rr.0, text: pre, rule: "R5-method", label: None, prio: 0 });
+                let dot_to_paren = (rr.1, self.src.span_range(m.paren_token.span.open()).1);
+                let sep = if m.args.is_empty() { "" } else { ", " };
+                self.push(dot_to_paren, sep, "R5-method");
+            }
+        }
         syn::visit::visit_expr_method_call(self, m);
     }
 
     fn visit_expr_call(&mut self, c: &'ast syn::ExprCall) {
         if let syn::Expr::Path(p) = &*c.func {
             let segs: Vec<String> = p.path.segments.iter().map(|s| s.ident.to_string()).collect();
+            if p.qself.is_none() && segs.len() >= 3 && segs[segs.len() - 3] == "io" && segs[segs.len() - 2] == "Error" && segs[segs.len() - 1] == "new" {
+                // R5: std::io::Error::new(kind, msg) -> vx_io_error_new(kind, msg) (bound `dyn Error + Send + Sync` unsupported)
+                let r = self.src.range(&p.path);
+                self.push(r, "vx_io_error_new", "R5-io-error-new");
+                for a in &c.args {
+                    self.visit_expr(a);
+                }
+                return;
+            }
             if p.qself.is_none() && segs.len() == 2 && segs[1] == "from_le_bytes" && (segs[0] == "u32" || segs[0] == "u64") {
                 let r = self.src.range(&p.path);
                 self.push(r, &format!("vx_{}_from_le_bytes", segs[0]), "R5-le");
@@ -645,6 +665,7 @@ fn do_extract(args: &BTreeMap<String, String>) -> Result<(), String> {
     let mut cur_src: Option<String> = None;
     let mut em = Emitter { lines: vec![], rules: BTreeMap::new(), functions: vec![], trusted: vec![] };
     let mut unit = String::new();
+    let mut method_rewrites: Vec<(String, String, bool)> = Vec::new();
     for d in &dirs {
         match d {
             Dir::Unit(u) => unit = u.clone(),
@@ -654,6 +675,7 @@ fn do_extract(args: &BTreeMap<String, String>) -> Result<(), String> {
                 em.raw(&t, Some(&format!("include:{}", p)));
             }
             Dir::Raw(t) => em.raw(t, Some("raw")),
+            Dir::RewriteMethod(a, b, c) => method_rewrites.push((a.clone(), b.clone(), *c)),
             Dir::Source(p) => {
                 if !srcs.contains_key(p) {
                     srcs.insert(p.clone(), Src::load(repo, p)?);
@@ -703,7 +725,7 @@ fn do_extract(args: &BTreeMap<String, String>) -> Result<(), String> {
                     continue;
                 }
                 let fname_disp = take.sel[1..].iter().filter(|s| *s != "fn" && *s != "trait").cloned().collect::<Vec<_>>().join("::");
-                let mut auto = Auto { src, edits: vec![], errors: vec![], keep_derives_off: take.drop_derives.clone() };
+                let mut auto = Auto { src, edits: vec![], errors: vec![], keep_derives_off: take.drop_derives.clone(), method_rewrites: method_rewrites.clone() };
                 let mut edits: Vec<Edit> = vec![];
                 let (range, header, footer): ((usize, usize), String, String);
                 match found {
